@@ -211,6 +211,10 @@ def eval_witness(facts, w, ss):
        ["operand_within", i, lo, hi, n]   the interval analysis bounds operand i of at least n sites of the group in [lo, hi]
        ["arg_within_const_generic", fn_rx, callee_rx, i]  every such call passes argument i within [0, N], N its first const generic
        ["fn_ret_const", fn_rx, value]     some function matching fn_rx assigns the constant to its return place
+       ["dom_cmp", [ops], const, edge]    every site is dominated by the `edge` ("true" | "false") successor of a comparison
+                                          whose operator is one of ops and one of whose operands is the integer constant
+                                          (null: any operands; "$operand": one operand is an operand of the site's own Assert)
+                                          -- a guard such as `if n > 64 { return }` (["Gt"], 64, "false")
        ["any", w1, w2, ...]               one of the alternatives holds"""
     kind = w[0]
     if kind == "any":
@@ -302,6 +306,45 @@ def eval_witness(facts, w, ss):
         bodies = _fn_bodies(facts, w[1])
         ok = any(match(b, t) for b in bodies for _, t in b.calls())
         return ok, f"a function matching /{w[1]}/ ({len(bodies)} found) calls /{w[2]}/"
+    if kind == "dom_cmp":
+        from ..recur import _cmp_guards
+        from ..sym import strip_casts
+        ops, kconst, edge = w[1], w[2], w[3]
+        txt = (f"every site is dominated by the {edge} edge of a comparison {'/'.join(ops)}"
+               + (f" with the constant {kconst}" if kconst is not None else ""))
+
+        from ..sym import expr_of
+
+        def is_k(e):
+            e = strip_casts(e)
+            return e[0] == "const" and len(e) > 2 and e[2] == kconst
+        for s_ in ss:
+            b, sb = s_["body"], s_.get("bb")
+            if sb is None:
+                return False, txt + " (site has no block)"
+            ok = False
+            # "$operand": the comparison is about a value the site itself uses (an operand of its Assert)
+            site_ops = []
+            if kconst == "$operand":
+                t_ = b.blocks[sb].term
+                if t_.kind == "assert":
+                    site_ops = [strip_casts(expr_of(b, o)) for o in t_.d[4]]
+            for gbb, op, a, c, t_true, t_false in _cmp_guards(b):
+                if op not in ops:
+                    continue
+                if kconst == "$operand":
+                    if not any(strip_casts(x) in site_ops for x in (a, c)):
+                        continue
+                elif kconst is not None and not (is_k(a) or is_k(c)):
+                    continue
+                tgt = t_true if edge == "true" else t_false
+                other = t_false if edge == "true" else t_true
+                if tgt is not None and b.dominates(tgt, sb) and (other is None or sb not in b.reachable_from(other) or b.dominates(tgt, sb)):
+                    ok = True
+                    break
+            if not ok:
+                return False, txt + f" (not at line {s_.get('line')})"
+        return True, txt
     if kind == "fn_ret_const":
         bodies = _fn_bodies(facts, w[1])
         ok = False
